@@ -228,6 +228,7 @@ class Skeleton:
     prologue: List[str] = field(default_factory=list)        # statements before StreamController::new that touch `s`
     body_group: Optional[Tok] = None
     fn_helpers: set = field(default_factory=set)
+    pure_lets: list = field(default_factory=list)
     mut_on_read: set = field(default_factory=set)
     unknown_toks: list = field(default_factory=list)
 
@@ -347,6 +348,15 @@ def scan_create_closure(body: Tok, src: str, sk: Skeleton, create_param: str):
                     if cl:
                         sk.helpers[name] = cl
                         continue
+                # a plain local value (`let total = observables.len() + 1;`): no closure, nothing that emits, subscribes or touches
+                # the controller / the subscriber -> irrelevant to the wiring
+                danger = {'inner_subscribe', 'subscribe', 'new_observer', 'next', 'error', 'complete', 'unsubscribe', 'spawn', 'post',
+                          'finalize', 'sink_next', 'sink_error', 'sink_complete', 'sink_complete_force', 'upstream_abort_observe',
+                          'set_on_unsubscribe', 'set_on_finalize', 'call', create_param or '', sk.sctl or ''}
+                flat = [u for _, _, u in walk(st)]
+                if name and not any((u.kind == 'ident' and (u.text in danger or sk.canon(u.text) == (sk.sctl or '\0'))) or u.is_p('|') or u.is_id('move') for u in flat):
+                    sk.pure_lets.append(txt)
+                    continue
                 sk.unknown.append(txt)
                 continue
             # expression statement: look for `.inner_subscribe(` / `new_observer(`
